@@ -364,9 +364,13 @@ class SparselyBin(Factory, Container):
                 self.nanflow.fill(datum, weight)
             else:
                 b = self.bin(q)
-                if b not in self.bins:
-                    self.bins[b] = self.value.copy()
-                self.bins[b].fill(datum, weight)
+                if b in self.bins:
+                    self.bins[b].fill(datum, weight)
+                else:
+                    # fill before inserting: a fill that raises must not leave an empty bin behind
+                    sub = self.value.copy()
+                    sub.fill(datum, weight)
+                    self.bins[b] = sub
             # no possibility of exception from here on out (for rollback)
             self.entries += weight
 
